@@ -1692,6 +1692,24 @@ def check_c09(res, ctx):
     compare(res, ctx, nl, "c09 negative lengths, single objects", oracle=oracle_neg,
             rule="string/binary objects whose int32 length is negative (small, large, boundary) through sbdf_obj_read and sbdf_obj_skip, on files and on streams that cannot seek",
             nontrivial=lambda l: True)
+    # counts too large rather than negative: the last value each `> INT_MAX / size` guard lets through
+    # and the first it refuses (no property names a status here; model and implementation must agree)
+    hl = []
+    for _ in range(40 if ctx.tier == "quick" else 400):
+        p = gen.rphys(r, maxcols=3, maxslices=2) if r.random() < 0.5 else gen.rtable(r, consistent=True, maxcols=3, maxslices=2, small=True).canon()
+        e = p.encode()
+        data = bytes(e.b)
+        fs = [f for f in e.f if f["len"] == 4 and f["kind"] in ("tmdcount", "elemcount", "colcount", "namecount", "propcnt", "rows_bit", "len32", "strlen")]
+        for f in r.sample(fs, min(len(fs), 4)):
+            for v in r.sample([(2 ** 31 - 1) // k + d for k in (1, 2, 4, 8, 16) for d in (0, 1)], 3):
+                if v > 2 ** 31 - 1:
+                    continue
+                b = bytearray(data)
+                b[f["off"]:f["off"] + 4] = v.to_bytes(4, "little")
+                hl.append("%s %s%s" % (r.choice(["fr", "fsk"]), bytes(b).hex(), " -" if hl and False else ""))
+    hl = [l + (" -" if l.startswith("fr ") else "") for l in hl]
+    compare(res, ctx, hl, "c09 counts above the representable size", rule="count and length fields set to INT_MAX/k and INT_MAX/k+1 (k = 1, 2, 4, 8, 16), read in full and skipped: statuses of model and implementation",
+            nontrivial=lambda l: True)
     compare(res, ctx, lines, "c09 field-wise corruption", oracle=oracle,
             rule="every structural field (marker bytes, section ids, counts, lengths incl. 7-bit, type ids, encoding ids, table-level presence flags) of generated files x every corruption class applicable to it; the field map comes from the reference encoder",
             nontrivial=lambda l: True)
